@@ -322,7 +322,7 @@ func runHistory(env *chainkit.Env, t *chaintree.Tree, txs map[common.Hash][]txLo
 
 func sizes(tier string) (maxN int, diffs []int64, maxSeg int) {
 	if tier == "thorough" {
-		return 5, []int64{1, 2}, 3
+		return 6, []int64{1, 2}, 3
 	}
 	return 4, []int64{1, 2}, 2
 }
